@@ -11,7 +11,7 @@ RULE = ("case = (matrix a, matrix b, ignore settings (comments, attributes, defi
         "(frame: added/deleted/length/id/format/name/comment/sender/attribute/signal group; signal: added/deleted/start/width/"
         "factor/offset/min/max/byte order/sign/multiplex/unit/comment/receiver/attribute/value table; ECU: added/deleted/comment/"
         "attribute; definitions of all four kinds: added/deleted/definition/default; global attribute; global value table), or an "
-        "unrelated matrix; both operand orders are compared. Non-trivial = distinct case with b != a.")
+        "unrelated matrix; both operand orders are compared. Numbers include values around 2^32 (the next half step differs in the tenth digit), value texts include characters outside ASCII, frames added with the number of an existing frame in the other format, definitions edited inside their type (ENUM values, INT range). Non-trivial = distinct case with b != a.")
 PARTIAL = ["numeric fields are compared as doubles by the code; generated values are multiples of 0.5 (exactly representable), "
            "modelled as integers", "the ref/changes payload of result nodes (object references, old/new texts) is not compared, only "
            "(result, type) and the tree shape", "cancompare's stdout is dump_result of the same tree; the CLI flag mapping is compared separately (op 'flags')"]
@@ -21,6 +21,7 @@ TRUSTED = ["float() conversion of Decimal for the generated half-integers"]
 CORRESPONDENCE = "compare.compare_db (tree of result/type) == CanVerif.compareDb"
 
 ECUS = ["E1", "E2", "Gw"]
+BIG = 2 * (2 ** 32 - 1)        # (in halves) 4294967295: the next half step differs from it in the tenth significant digit only
 ANAMES = ["GenA", "Note", "Mode"]
 D = decimal.Decimal
 
@@ -31,11 +32,11 @@ def kv(rng, p=0.4):
 
 def gen_sig(rng, name):
     mux = rng.choice(["None", "None", "None", "Multiplexor", "0", "3"])
-    return {"name": name, "start": rng.randint(0, 40), "size": rng.randint(1, 16), "factor": rng.choice([1, 2, 3, 5, -2]),
-            "offset": rng.choice([0, 0, 1, -80]), "min": rng.choice([0, -10, 2]), "max": rng.choice([100, 255, 7]),
+    return {"name": name, "start": rng.randint(0, 40), "size": rng.randint(1, 16), "factor": rng.choice([1, 2, 3, 5, -2, BIG]),
+            "offset": rng.choice([0, 0, 1, -80, BIG]), "min": rng.choice([0, -10, 2, -BIG]), "max": rng.choice([100, 255, 7, BIG]),
             "little": rng.random() < 0.5, "signed": rng.random() < 0.5, "multiplex": mux, "unit": rng.choice(["", "km/h", "V"]),
             "comment": rng.choice([None, "c1", "speed of car"]), "receivers": rng.sample(ECUS, rng.choice([0, 1, 2])),
-            "attrs": kv(rng, 0.3), "values": [[k, rng.choice(["On", "Off", "Err"])] for k in rng.sample(range(6), rng.choice([0, 0, 2, 3]))]}
+            "attrs": kv(rng, 0.3), "values": [[k, rng.choice(["On", "Off", "Err", "ge\u00f6ffnet", "10 \u00b5s"])] for k in rng.sample(range(6), rng.choice([0, 0, 2, 3]))]}
 
 
 def gen_frame(rng, name, i, ext):
@@ -177,7 +178,12 @@ def edit(rng, a):
         elif what == "valchg":
             if not s["values"]:
                 return None, None
-            s["values"][0][1] = s["values"][0][1] + "X"
+            if rng.random() < 0.5:
+                s["values"][0][1] = s["values"][0][1] + "X"
+            else:
+                # a text that differs in characters outside ASCII only
+                t = s["values"][0][1]
+                s["values"][0][1] = t.replace("\u00f6", "\u00e4").replace("\u00b5", "\u03bc") if any(ord(ch) > 127 for ch in t) else t + "\u00b5"
         return b, "signal." + what
     if kind == "ecu":
         what = rng.choice(["add", "del", "comment", "attr"])
@@ -229,6 +235,8 @@ def edit(rng, a):
         t = rng.choice(b["vt"])
         if what == "del":
             b["vt"].remove(t)
+        elif t[1] and rng.random() < 0.5:
+            t[1][0][1] = t[1][0][1] + "\u00e9"          # the text of an entry changes (outside ASCII only)
         else:
             t[1].append([99, "q"])
         return b, "vt." + what
